@@ -314,6 +314,11 @@ func (s *Session) Mail(from string, opts *smtp.MailOptions) error {
 			}
 			return s.endp.wrapErr(msgID, !opts.UTF8, "MAIL", err)
 		}
+
+		// startDelivery has set s.mailFrom to the normalized address
+		// that is used as a key for limits, do not overwrite it.
+		s.opts = *opts
+		return nil
 	}
 
 	// Keep the MAIL FROM argument for deferred startDelivery.
